@@ -57,7 +57,7 @@ def _cases(tier):
     sc = _sc()
     out = []
 
-    def mk(divs=4, tss=(), kss=(), clefs=(), measures=(), note=(0, 32), staves=1):
+    def mk(divs=4, tss=(), kss=(), clefs=(), measures=(), note=(0, 32), staves=1, musical=None):
         def f():
             p = sc.Part("P", quarter_duration=divs)
             for t, b_, bt in tss:
@@ -70,6 +70,8 @@ def _cases(tier):
                 p.add(sc.Measure(number=i + 1), s, e)
             for st in range(1, staves + 1):
                 p.add(sc.Note("C", 4, id="n%d" % st, voice=st, staff=st), note[0], note[1])
+            if musical is not None:
+                p.use_musical_beat(musical)
             return p
         return f
     out.append(("nothing_at_all", mk()))
@@ -86,6 +88,10 @@ def _cases(tier):
     out.append(("three_changes", mk(tss=[(0, 4, 4), (16, 6, 8), (28, 2, 2)], kss=[(0, 0, "major"), (16, 7, "major"), (28, -7, "minor")],
                                   clefs=[(0, 1, "G", 2, 0), (16, 1, "C", 3, 0), (20, 1, "G", 2, -1)], measures=[(0, 16), (16, 28), (28, 44)], note=(0, 44))))
     out.append(("pickup_4_4", mk(tss=[(0, 4, 4)], kss=[(0, 1, "major")], clefs=[(0, 1, "G", 2, 0)], measures=[(0, 4), (4, 20), (20, 36)], note=(0, 36))))
+    # musical beats enabled: a full first bar stays a full bar, a pickup stays a pickup (the extent of a measure does not depend on the beat unit)
+    out.append(("musical_beats_full_first_bar_4_4_in_two", mk(tss=[(0, 4, 4)], measures=[(0, 16), (16, 32)], note=(0, 32), musical={"4/4": 2})))
+    out.append(("musical_beats_pickup_6_8", mk(divs=2, tss=[(0, 6, 8)], measures=[(0, 2), (2, 8), (8, 14)], note=(0, 14), musical={})))
+    out.append(("musical_beats_full_first_bar_3_8", mk(divs=2, tss=[(0, 3, 8)], measures=[(0, 3), (3, 6), (6, 9)], note=(0, 9), musical={})))
     out.append(("pickup_6_8_divs2", mk(divs=2, tss=[(0, 6, 8)], measures=[(0, 2), (2, 8), (8, 14)], note=(0, 14))))
     out.append(("pickup_6_8_divs3_beat_not_a_whole_number_of_divisions", mk(divs=3, tss=[(0, 6, 8)], measures=[(0, 3), (3, 12), (12, 21)], note=(0, 21))))
     out.append(("pickup_6_8_divs1", mk(divs=1, tss=[(0, 6, 8)], measures=[(0, 1), (1, 4), (4, 7)], note=(0, 7))))
